@@ -442,6 +442,12 @@ pub fn udp_smoke(ctx: &Ctx) -> SubResult {
             loop {
                 match tokio::time::timeout_at(deadline, probe.recv_from(&mut buf)).await {
                     Ok(Ok((len, _))) => {
+                        // Every datagram the server emits must be exactly one well-formed message.
+                        match decode_msg(&buf[..len]) {
+                            Ok(d) if d.consumed == len => {}
+                            Ok(d) => return Ok((garbage, u64::MAX - 1 - (len - d.consumed) as u64)),
+                            Err(_) => return Ok((garbage, u64::MAX - 1)),
+                        }
                         if let Ok(d) = decode_msg(&buf[..len]) {
                             if matches!(d.msg, WMsg::SynAck { .. }) {
                                 answered += 1;
@@ -464,7 +470,11 @@ pub fn udp_smoke(ctx: &Ctx) -> SubResult {
             res.tally.evaluations += 1;
             res.tally.sum("garbage_datagrams", garbage);
             res.tally.sum("probes_answered", answered);
-            if answered == u64::MAX {
+            if answered != u64::MAX && answered > u64::MAX - 100_000 {
+                let f = Failure::new("C19/udp-malformed-answer", format!("the server answered a SYN on the real UDP transport with a datagram that is not exactly one well-formed message ({} trailing bytes; u64::MAX-1 = undecodable)", u64::MAX - 1 - answered));
+                let path = write_replay(ctx, "udp-loopback-smoke", &serde_json::json!({"udp_smoke": true}), &f);
+                res.violations.push(Violation { signature: f.signature, message: f.message, replay_path: path });
+            } else if answered == u64::MAX {
                 let f = Failure::new("C19/udp-garbage-terminated-loop", "after receiving only undecodable datagrams (random bytes, truncated and bit-flipped messages, 65,507-byte and empty datagrams) on the real UDP transport the gossip loop has terminated");
                 let path = write_replay(ctx, "udp-loopback-smoke", &serde_json::json!({"udp_smoke": true}), &f);
                 res.violations.push(Violation { signature: f.signature, message: f.message, replay_path: path });
@@ -494,4 +504,114 @@ pub fn replay(ctx: &Ctx, sub: &str, case: &serde_json::Value) -> SubResult {
         return udp_smoke(ctx);
     }
     replay_case::<SrvCase, _>(ctx, sub, case, exec_srv)
+}
+
+// ------------------------------------------------------------------------------------------
+// C17 at the server level: per gossip round the server contacts at most 3 + 1 + 1 addresses, all
+// of them known peers or seeds, never its own address (the pools are built with self filtered).
+
+#[derive(Clone, Debug, Serialize, Deserialize)]
+pub struct TargetsCase {
+    /// Number of peers introduced through a digest (0..=12).
+    pub peers: u8,
+    /// How many of them keep heartbeating (become live).
+    pub live: u8,
+    /// Seeds: bit 0 = a foreign seed, bit 1 = the server's own address is listed as a seed too
+    /// (usual in deployments where every node gets the same seed list), bit 2 = a peer is a seed.
+    pub seeds: u8,
+    pub rounds: u8,
+}
+
+pub fn exec_targets(case: &TargetsCase, tally: &mut Tally) -> Result<(), Failure> {
+    let rt = tokio::runtime::Builder::new_current_thread().enable_time().start_paused(true).build().expect("runtime");
+    let result = rt.block_on(async {
+        let interval = Duration::from_millis(1000);
+        let shared = Arc::new(Mutex::new(Shared::default()));
+        let (tx, rx) = mpsc::unbounded_channel();
+        let transport = ScriptTransport { shared: shared.clone(), rx: Mutex::new(Some(rx)) };
+        let id = simple_id("server", 0, 9000);
+        let own_addr = id.gossip_advertise_addr;
+        let n_peers = (case.peers % 13) as usize;
+        let peer_ids: Vec<WId> = (0..n_peers).map(|i| WId::v4(&format!("p{i}"), 0, 9200 + i as u16)).collect();
+        let mut seeds: Vec<String> = Vec::new();
+        let foreign_seed = peer_addr(50);
+        if case.seeds & 1 != 0 {
+            seeds.push(foreign_seed.to_string());
+        }
+        if case.seeds & 2 != 0 {
+            seeds.push(own_addr.to_string());
+        }
+        if case.seeds & 4 != 0 && n_peers > 0 {
+            seeds.push(format!("127.0.0.1:{}", 9200));
+        }
+        let config = ChitchatConfig {
+            chitchat_id: id.clone(),
+            cluster_id: "c".into(),
+            gossip_interval: interval,
+            listen_addr: own_addr,
+            seed_nodes: seeds.clone(),
+            failure_detector_config: FailureDetectorConfig::default(),
+            marked_for_deletion_grace_period: Duration::from_secs(3600),
+            catchup_callback: None,
+            extra_liveness_predicate: None,
+        };
+        let handle = match spawn_chitchat(config, vec![], &transport).await {
+            Ok(h) => h,
+            Err(e) => return vio("C17/spawn-failed", format!("{e:#}")),
+        };
+        let known: std::collections::HashSet<SocketAddr> = peer_ids.iter().map(|p| p.to_real().gossip_advertise_addr).chain(seeds.iter().filter_map(|s| s.parse().ok())).collect();
+        let n_live = (case.live as usize).min(n_peers);
+        for round in 0..(case.rounds % 8 + 3) as u64 {
+            // digest from peer 0: all peers, the first n_live with increasing heartbeats
+            if n_peers > 0 {
+                let digest: Vec<WNodeDigest> = peer_ids.iter().enumerate().map(|(i, p)| WNodeDigest { id: p.clone(), heartbeat: if i < n_live { 10 + round } else { 10 }, last_gc: 0, max_version: 0 }).collect();
+                let mut d = digest;
+                sort_digest_real_order(&mut d);
+                let (bytes, _) = encode_msg(&WMsg::Syn { cluster_id: "c".into(), digest: d }, Blocking::Canonical);
+                let _ = tx.send(RecvItem::Msg(peer_ids[0].to_real().gossip_advertise_addr, real_decode(&bytes).expect("decodes").0));
+            }
+            let before = shared.lock().unwrap().sent.len();
+            tokio::time::sleep(interval).await;
+            let sent: Vec<(SocketAddr, &'static str, bool)> = shared.lock().unwrap().sent[before..].to_vec();
+            let syns: Vec<SocketAddr> = sent.iter().filter(|(_, k, _)| *k == "SYN").map(|(a, _, _)| *a).collect();
+            if syns.len() > 5 {
+                return vio("C17/server-too-many-targets", format!("round {round}: {} SYNs emitted in one gossip round (> 3 peers + 1 dead + 1 seed): {syns:?}", syns.len()));
+            }
+            for a in &syns {
+                if *a == own_addr {
+                    return vio("C17/server-gossips-to-itself", format!("round {round}: the server sent a SYN to its own address {own_addr} (seeds {seeds:?})"));
+                }
+                if !known.contains(a) {
+                    return vio("C17/server-unknown-target", format!("round {round}: SYN to {a}, which is neither a known peer nor a seed"));
+                }
+            }
+            if round >= 1 && n_live == 0 && case.seeds & 1 != 0 && !syns.contains(&foreign_seed) && !(case.seeds & 4 != 0 && syns.iter().any(|a| a.port() == 9200)) {
+                return vio("C17/server-isolated-no-seed", format!("round {round}: no live peer and a seed exists, yet the round's SYNs {syns:?} reach no seed"));
+            }
+            tally.sum("rounds_observed", 1);
+        }
+        let _ = tokio::time::timeout(STALL, handle.shutdown()).await;
+        if case.seeds & 2 != 0 || n_live == 0 {
+            tally.nontrivial(str_hash(&format!("{case:?}")));
+            tally.sample(|| serde_json::to_value(case).unwrap());
+        }
+        if case.seeds & 2 != 0 {
+            tally.label("own_address_among_seeds");
+        }
+        Ok(())
+    });
+    drop(rt);
+    result
+}
+
+pub fn targets_strategy() -> impl Strategy<Value = TargetsCase> {
+    (0u8..13, 0u8..13, 0u8..8, 0u8..8).prop_map(|(peers, live, seeds, rounds)| TargetsCase { peers, live, seeds, rounds })
+}
+
+pub fn run_targets(ctx: &Ctx, report: &mut Report) {
+    report.push(run_proptest(ctx, "server-round-targets", ctx.cases(6_000, 200_000), 300, targets_strategy, exec_targets));
+}
+
+pub fn replay_targets(ctx: &Ctx, sub: &str, case: &serde_json::Value) -> SubResult {
+    replay_case::<TargetsCase, _>(ctx, sub, case, exec_targets)
 }
